@@ -214,6 +214,95 @@ static void sc_filter_create (res_t *res)
 #define MARGIN_PATTERN 0x5a5a5a5au
 static int margin_intact (const uint32_t *px, int stride_px, int w, int h, int x0, int y0, int rw, int rh)
 { for (int y = 0; y < h; y++) for (int x = 0; x < w; x++) if (!(x >= x0 && x < x0 + rw && y >= y0 && y < y0 + rh) && px[y * stride_px + x] != MARGIN_PATTERN) return 0; return 1; }
+/* ONE drawing call per scenario: under any allocation failure every destination pixel is either untouched or what the failure-free call leaves
+ * ("complete correctly or skip work").  The failure-free run comes first and records its result. */
+#define ONCE_MAX (2200 * 6)
+static uint32_t once_final[8][ONCE_MAX];
+static void once_check (res_t *res, int slot, const uint32_t *px, int n, uint32_t initial, const char *what)
+{
+    if (!vf_alloc_failed ()) { memcpy (once_final[slot], px, (size_t)n * 4); return; }
+    for (int i = 0; i < n; i++) if (px[i] != initial && px[i] != once_final[slot][i]) { FAIL (res, "%s under an allocation failure left pixel %d as %08x: neither untouched (%08x) nor the failure-free result (%08x)", what, i, px[i], initial, once_final[slot][i]); return; }
+}
+static void sc_once_float_to_narrow (res_t *res)
+{   /* float source, narrow destination: the float rows are converted through a per-scanline buffer */
+    static float fpx[420 * 4 * 6]; int W = 300 + (int)(size_variant % 120);
+    for (int i = 0; i < W * 6; i++) { fpx[4 * i] = (float)((i * 7) % 256) / 255.0f; fpx[4 * i + 1] = (float)((i * 13) % 256) / 255.0f; fpx[4 * i + 2] = (float)(i % 97) / 96.0f; fpx[4 * i + 3] = 1.0f; }
+    for (int i = 0; i < W * 6; i++) px_d[i] = MARGIN_PATTERN;
+    pixman_image_t *s = pixman_image_create_bits (PIXMAN_rgba_float, W, 6, (uint32_t *)fpx, W * 16), *d = pixman_image_create_bits (PIXMAN_a8r8g8b8, W, 6, px_d, W * 4);
+    if (!s || !d) { res->reported_failure = 1; if (s) pixman_image_unref (s); if (d) pixman_image_unref (d); return; }
+    pixman_image_composite32 (PIXMAN_OP_SRC, s, NULL, d, 0, 0, 0, 0, 0, 0, W, 6);
+    once_check (res, 0, px_d, W * 6, MARGIN_PATTERN, "SRC of an rgba_float image onto a8r8g8b8");
+    res->digest = vf_hash (px_d, (size_t)W * 6 * 4, 0);
+    pixman_image_unref (s); pixman_image_unref (d);
+}
+static void sc_once_narrow_to_wide (res_t *res)
+{   /* narrow source onto a 10-bit destination, translucent OVER, rows longer than the stack buffers */
+    int W = 600 + (int)(size_variant % 200);
+    for (int i = 0; i < W * 4; i++) { uint32_t a = (i * 5) & 0xff; px_c[i] = a << 24 | (a * ((i * 3) & 0xff) / 255) << 16 | (a / 2) << 8 | (a / 3); px_d[i] = 0xc0000000u | (uint32_t)(i * 2654435761u >> 2); }
+    static uint32_t init[2200 * 4]; memcpy (init, px_d, (size_t)W * 4 * 4);
+    pixman_image_t *s = pixman_image_create_bits (PIXMAN_a8r8g8b8, W, 4, px_c, W * 4), *d = pixman_image_create_bits (PIXMAN_a2r10g10b10, W, 4, px_d, W * 4);
+    if (!s || !d) { res->reported_failure = 1; if (s) pixman_image_unref (s); if (d) pixman_image_unref (d); return; }
+    pixman_image_composite32 (PIXMAN_OP_OVER, s, NULL, d, 0, 0, 0, 0, 0, 0, W, 4);
+    if (!vf_alloc_failed ()) memcpy (once_final[1], px_d, (size_t)W * 4 * 4);
+    else for (int i = 0; i < W * 4; i++) if (px_d[i] != init[i] && px_d[i] != once_final[1][i]) { FAIL (res, "OVER onto a2r10g10b10 under an allocation failure left pixel %d as %08x: neither untouched (%08x) nor the failure-free result (%08x)", i, px_d[i], init[i], once_final[1][i]); break; }
+    res->digest = vf_hash (px_d, (size_t)W * 4 * 4, 0);
+    pixman_image_unref (s); pixman_image_unref (d);
+}
+static void sc_once_general_narrow (res_t *res)
+{   /* 8-bit general path, no fast path, scanline buffers beyond the stack buffer */
+    int W = 2100;
+    for (int i = 0; i < W * 4; i++) { px_c[i] = 0x80402010u + (uint32_t)i * 0x01010101u; px_d[i] = MARGIN_PATTERN; }
+    pixman_image_t *s = pixman_image_create_bits (PIXMAN_a8r8g8b8, W, 4, px_c, W * 4), *d = pixman_image_create_bits (PIXMAN_a8r8g8b8, W, 4, px_d, W * 4);
+    if (!s || !d) { res->reported_failure = 1; if (s) pixman_image_unref (s); if (d) pixman_image_unref (d); return; }
+    pixman_image_composite32 (PIXMAN_OP_ATOP, s, NULL, d, 0, 0, 0, 0, 0, 0, W, 4);
+    once_check (res, 2, px_d, W * 4, MARGIN_PATTERN, "ATOP through the general path");
+    res->digest = vf_hash (px_d, (size_t)W * 4 * 4, 0);
+    pixman_image_unref (s); pixman_image_unref (d);
+}
+static void sc_once_traps (res_t *res)
+{
+    for (int i = 0; i < 64 * 64; i++) px_b[i] = 0xff808080u;
+    pixman_image_t *d = pixman_image_create_bits (PIXMAN_a8r8g8b8, 60, 30, px_b, 256); pixman_color_t col = { 0x8000, 0x2000, 0, 0x8000 }; pixman_image_t *s = pixman_image_create_solid_fill (&col);
+    if (!d || !s) { res->reported_failure = 1; if (d) pixman_image_unref (d); if (s) pixman_image_unref (s); return; }
+    pixman_trapezoid_t t[6]; for (int i = 0; i < 6; i++) { t[i].top = (4 + i * 2) << 16; t[i].bottom = (14 + i * 2) << 16; t[i].left.p1.x = (6 + i * 3) << 16; t[i].left.p1.y = t[i].top; t[i].left.p2.x = (9 + i * 3) << 16; t[i].left.p2.y = t[i].bottom; t[i].right.p1.x = 50 << 16; t[i].right.p1.y = t[i].top; t[i].right.p2.x = 45 << 16; t[i].right.p2.y = t[i].bottom; }
+    pixman_composite_trapezoids (PIXMAN_OP_OVER, s, d, PIXMAN_a8, 0, 0, 0, 0, 6, t);
+    once_check (res, 3, px_b, 64 * 30, 0xff808080u, "composite_trapezoids OVER");
+    res->digest = vf_hash (px_b, 64 * 30 * 4, 0);
+    pixman_image_unref (d); pixman_image_unref (s);
+}
+static void sc_once_transformed (res_t *res)
+{   /* bilinear rotated source with reflect repeat onto 565, through an a8 mask */
+    for (int i = 0; i < 64 * 64; i++) { px_a[i] = 0xc0804020u ^ (i * 2654435761u); px_b[i] = MARGIN_PATTERN; }
+    pixman_image_t *s = pixman_image_create_bits (PIXMAN_a8r8g8b8, 40, 20, px_a, 256), *d = pixman_image_create_bits (PIXMAN_a8r8g8b8, 60, 30, px_b, 256), *m = pixman_image_create_bits (PIXMAN_a8, 60, 30, NULL, 0);
+    if (!s || !d || !m) { res->reported_failure = 1; if (s) pixman_image_unref (s); if (d) pixman_image_unref (d); if (m) pixman_image_unref (m); return; }
+    memset (pixman_image_get_data (m), 0x90, (size_t)pixman_image_get_stride (m) * 30);
+    pixman_transform_t t; pixman_transform_init_rotate (&t, 60000, 20000); int set_ok = pixman_image_set_transform (s, &t) && pixman_image_set_filter (s, PIXMAN_FILTER_BILINEAR, NULL, 0); pixman_image_set_repeat (s, PIXMAN_REPEAT_REFLECT);
+    if (!set_ok) { res->reported_failure = 1; pixman_image_unref (s); pixman_image_unref (d); pixman_image_unref (m); return; }      /* a setter reported the failure: the picture is a different one */
+    pixman_image_composite32 (PIXMAN_OP_XOR, s, m, d, 0, 0, 0, 0, 0, 0, 60, 30);
+    once_check (res, 4, px_b, 64 * 30, MARGIN_PATTERN, "XOR of a rotated bilinear source through an a8 mask");
+    res->digest = vf_hash (px_b, 64 * 30 * 4, 0);
+    pixman_image_unref (s); pixman_image_unref (d); pixman_image_unref (m);
+}
+/* the 16-bit region a client passes to pixman_compute_composite_region is reused from call to call: it already owns a rectangle array when the next result arrives */
+static void sc_compute_region_reused_result (res_t *res)
+{
+    pixman_image_t *s = small_src (), *d = pixman_image_create_bits (PIXMAN_a8r8g8b8, 200, 60, NULL, 0);
+    if (!s || !d) { res->reported_failure = 1; if (s) pixman_image_unref (s); if (d) pixman_image_unref (d); return; }
+    pixman_box32_t cb[24]; boxes_grid (cb, 24, 2, 0, 1); pixman_region32_t reg; int ok = pixman_region32_init_rects (&reg, cb, 24);
+    if (ok) ok = pixman_image_set_clip_region32 (d, &reg);
+    pixman_region32_fini (&reg);
+    pixman_image_set_repeat (s, PIXMAN_REPEAT_NORMAL);
+    pixman_region16_t out; pixman_region_init (&out); uint64_t dg = 0; int fails = !ok;
+    for (int call = 0; call < 3; call++) {
+        pixman_bool_t r = pixman_compute_composite_region (&out, s, NULL, d, 0, 0, 0, 0, (int16_t)(call == 0 ? 1 : 0), 1, (uint16_t)(call == 0 ? 14 : call == 1 ? 190 : 40), 25);
+        if (!r) { fails++; if (vf_alloc_failed () && (pixman_region_n_rects (&out) || pixman_region_not_empty (&out))) { /* FALSE: the result is unspecified but must be safe to use and to fini */ } }
+        else { int n; pixman_box16_t *b = pixman_region_rectangles (&out, &n); dg = vf_hash (b, n * sizeof *b, dg + call); if (!pixman_region_selfcheck (&out)) FAIL (res, "compute_composite_region returned TRUE with a malformed region"); }
+        /* whatever happened, the region object must be usable */
+        pixman_region16_t tmp; pixman_region_init_rect (&tmp, 0, 0, 3, 3); pixman_region_intersect (&tmp, &tmp, &out); pixman_region_fini (&tmp);
+    }
+    if (fails) res->reported_failure = 1; else res->digest = dg;
+    pixman_region_fini (&out); pixman_image_unref (s); pixman_image_unref (d);
+}
 /* properties that are REPLACED on an image that already owns the old ones: clip (many boxes -> other boxes -> one box), filter parameters, transform, alpha map */
 static void sc_replace_properties (res_t *res)
 {
@@ -448,6 +537,8 @@ static const scen_t scens[] = {
     { "region32_copy_into_larger", sc_bigpop_copy }, { "region32_subtract_into_larger", sc_bigpop_subtract }, { "region16_ops_into_populated", sc_region16_into_populated }, { "region_init_from_image", sc_region_from_image },
     { "replace_clip_filter_transform_alpha_map", sc_replace_properties, 1 }, { "wide_pipeline_gradient_separable_filter", sc_wide_and_indexed, 1 }, { "many_triangles_trapezoids", sc_many_shapes, 1 },
     { "glyph_cache_traffic_and_long_runs", sc_glyphs_many, 1 }, { "fill_boxes_through_many_box_clip", sc_fill_boxes_clipped, 1 },
+    { "one_draw_float_source_to_narrow", sc_once_float_to_narrow, 1 }, { "one_draw_narrow_to_10bit_OVER", sc_once_narrow_to_wide, 1 }, { "one_draw_general_path_ATOP", sc_once_general_narrow, 1 },
+    { "one_draw_composite_trapezoids", sc_once_traps, 1 }, { "one_draw_rotated_bilinear_masked", sc_once_transformed, 1 }, { "compute_composite_region_reused_result", sc_compute_region_reused_result },
 };
 #define NSCEN ((int)(sizeof scens / sizeof scens[0]))
 
